@@ -119,9 +119,38 @@ class Proxies:
         self.rw = rw
         s = sched
 
-        class OS:
+        PRE = ("/run/lock", "/run/ebpf", "/sys/fs/bpf")
+
+        def generic(mod, name):
+            """any other function of os / os.path: path arguments are
+            redirected as well, and the call is a scheduling point when it
+            touches the shared directories (code under test may use calls
+            the harness has no special model for, e.g. listdir)"""
+            f = getattr(mod, name)
+            if not callable(f) or isinstance(f, type):
+                return f
+
+            def call(*a, **kw):
+                touched = [x for x in a if isinstance(x, str)
+                           and x.startswith(PRE)]
+                if touched:
+                    s.gate((name, touched[0]))
+                a = [rw(x) if isinstance(x, str) else x for x in a]
+                r = f(*a, **kw)
+                if touched and name in ("listdir", "scandir"):
+                    s.record(name, touched[0])
+                return r
+            return call
+
+        class OSPath:
             def __getattr__(self_, name):
-                return getattr(real_os, name)
+                return generic(real_os.path, name)
+
+        class OS:
+            path = OSPath()
+
+            def __getattr__(self_, name):
+                return generic(real_os, name)
 
             def makedirs(self_, path, **kw):
                 s.gate(("makedirs", path))
